@@ -215,7 +215,14 @@ fn to_ivs<P: Kmer>(v: &[MspIntervalP<P>]) -> Vec<Iv> {
 fn scan_with<P: Kmer, V: Vmer>(v: &V, k: usize, sc: &Score) -> Vec<Iv> {
     let score = |pm: &P| score_of(sc, &kseq(pm));
     let scanner = Scanner::new(v, score, k);
-    to_ivs(&scanner.scan())
+    let first = to_ivs(&scanner.scan());
+    // scan() takes &self: asking the same scanner again must give the same intervals
+    let again = to_ivs(&scanner.scan());
+    let key = |x: &Iv| (x.start, x.len, x.mpos, x.minimizer.clone());
+    if first.iter().map(key).collect::<Vec<_>>() != again.iter().map(key).collect::<Vec<_>>() {
+        panic!("a second scan() on the same Scanner gives different intervals ({} vs {})", first.len(), again.len());
+    }
+    first
 }
 
 pub fn scan_container<P: Kmer>(seq: &[u8], k: usize, sc: &Score, container: u8) -> (Vec<Iv>, &'static str) {
@@ -240,7 +247,7 @@ pub fn scan_container<P: Kmer>(seq: &[u8], k: usize, sc: &Score, container: u8) 
     }
 }
 
-fn check<P: Kmer>(c: &Case) -> CheckResult {
+pub fn check<P: Kmer>(c: &Case) -> CheckResult {
     let p = P::k();
     let k = p + c.k_extra as usize;
     if c.seq.len() < k {
